@@ -247,7 +247,7 @@ def run(ck):
     for (a, t) in HAND:
         for faulty in (False, True):
             cases.append({'adapter': a, 'text': t, 'faulty': faulty, 'inv': 3, 'kind': 'hand'})
-    per = 3000 if quick else 100000
+    per = 5000 if quick else 100000
     for a in da.ADAPTERS:
         for _ in range(per):
             kind, text = da.gen_text(ck.rng, a)
